@@ -1,8 +1,136 @@
-/- line-protocol engine `typing` (stub: answers bad-op until the engine is built) -/
+/- line-protocol engine `typing`: the checker of the core fragment (C01).
+
+Request:  typing check <program as one S-expression with type annotations>
+            types: int bool str unk (tupT t..) (arrT t) (fnT (req..) (opt..) ret)
+            exprs: (i n) (b true|false) (s w) (v x) (c f a..) (ce f a..) (lam (params) (decls) body)
+                   (tup e..) (arr e..) (item e n)
+            param: (p name ty) | (pd name ty default)
+            decl:  (let x e) | (leta x ty e) | (fn name (params) ret (decls) body)
+Response: ok ; <name>=<type> ; …      (every top-level binding, in declaration order)
+          reject
+          typing run <depth|-> <calls|-> <rec|-> <tco> <fuel> <program>: check, erase, run; answers
+          reject | <outcome of the core engine on the erased program>
+-/
+import XrayModel.CoreTyping
+import Driver.Core
+open XrayModel.Core XrayModel.CoreTyping
+namespace XrayDriver.TypingE
+open XrayDriver.CoreE (SExp tokenize parseSExp)
+
+mutual
+  partial def toTy : SExp → Option Ty
+    | .atom "int" => some .int
+    | .atom "bool" => some .bool
+    | .atom "str" => some .str
+    | .atom "unk" => some .unk
+    | .list (.atom "tupT" :: ts) => (ts.mapM toTy).map Ty.tup
+    | .list [.atom "arrT", t] => (toTy t).map Ty.arr
+    | .list [.atom "fnT", .list req, .list opt, ret] => do
+        let r ← req.mapM toTy
+        let o ← opt.mapM toTy
+        let t ← toTy ret
+        pure (.fn r o t)
+    | _ => none
+end
+
+mutual
+  partial def toExpr : SExp → Option TExpr
+    | .list [.atom "i", .atom n] => n.toInt?.map TExpr.int
+    | .list [.atom "b", .atom "true"] => some (.bool true)
+    | .list [.atom "b", .atom "false"] => some (.bool false)
+    | .list [.atom "s"] => some (.str "")
+    | .list [.atom "s", .atom w] => some (.str (w.replace "_" " "))
+    | .list [.atom "v", .atom x] => some (.var x)
+    | .list (.atom "c" :: .atom f :: args) => (args.mapM toExpr).map (TExpr.call f)
+    | .list (.atom "ce" :: f :: args) => do
+        let f' ← toExpr f
+        let as ← args.mapM toExpr
+        pure (.callE f' as)
+    | .list [.atom "lam", .list ps, .list ds, body] => do
+        let ps' ← ps.mapM toParam
+        let ds' ← ds.mapM toDecl
+        let b ← toExpr body
+        pure (.lam (.mk none ps' none ds' b))
+    | .list (.atom "tup" :: es) => (es.mapM toExpr).map TExpr.tup
+    | .list (.atom "arr" :: es) => (es.mapM toExpr).map TExpr.arr
+    | .list [.atom "item", e, .atom n] => do
+        let e' ← toExpr e
+        let i ← n.toNat?
+        pure (.item e' i)
+    | _ => none
+  partial def toParam : SExp → Option TParam
+    | .list [.atom "p", .atom n, t] => (toTy t).map (fun t' => .mk n t' none)
+    | .list [.atom "pd", .atom n, t, d] => do
+        let t' ← toTy t
+        let d' ← toExpr d
+        pure (.mk n t' (some d'))
+    | _ => none
+  partial def toDecl : SExp → Option TDecl
+    | .list [.atom "let", .atom x, e] => (toExpr e).map (TDecl.letD x none)
+    | .list [.atom "leta", .atom x, t, e] => do
+        let t' ← toTy t
+        let e' ← toExpr e
+        pure (.letD x (some t') e')
+    | .list [.atom "fn", .atom n, .list ps, ret, .list ds, body] => do
+        let ps' ← ps.mapM toParam
+        let r ← toTy ret
+        let ds' ← ds.mapM toDecl
+        let b ← toExpr body
+        pure (.fnD (.mk (some n) ps' (some r) ds' b))
+    | _ => none
+end
+
+partial def showTy : Ty → String
+  | .int => "int"
+  | .bool => "bool"
+  | .str => "str"
+  | .unk => "?"
+  | .tup ts => "(" ++ String.intercalate ", " (ts.map showTy) ++ ")"
+  | .arr t => "Sequence<" ++ showTy t ++ ">"
+  | .fn req opt ret =>
+      "(" ++ String.intercalate ", " (req.map showTy ++ opt.map (fun t => showTy t ++ "?")) ++ ")->" ++ showTy ret
+
+def parseProg (rest : List String) : Option (List TDecl) :=
+  match parseSExp (tokenize (String.intercalate " " rest)) with
+  | some (.list (.atom "prog" :: ds)) => ds.mapM toDecl
+  | _ => none
+
+def typingCheck (rest : List String) : String :=
+  match parseProg rest with
+  | none => "bad-op"
+  | some ds =>
+    match checkProgram ds with
+    | none => "reject"
+    | some Γ => String.intercalate " ; " ("ok" :: Γ.reverse.map (fun (n, t) => n ++ "=" ++ showTy t))
+
+def typingRun (args : List String) : String :=
+  match args with
+  | d :: c :: r :: tco :: fuel :: rest =>
+    match XrayDriver.CoreE.optNat d, XrayDriver.CoreE.optNat c, XrayDriver.CoreE.optNat r, fuel.toNat?, parseProg rest with
+    | some d', some c', some r', some fuel', some ds =>
+      match checkProgram ds with
+      | none => "reject"
+      | some _ =>
+        let cfg : Cfg := { depthLimit := d', callLimit := c', recLimit := r', tco := tco != "0" }
+        let (res, _) := runProgram fuel' cfg (eraseDs ds)
+        match res with
+        | .ok _ => "ok"
+        | .error (.viol k) => "viol:" ++ XrayDriver.CoreE.showViol k
+        | .error (.stuck w) => "stuck:" ++ w
+        | .error .oof => "oof"
+        | .error (.val _) => "stuck:value-as-error"
+        | .error (.tail _) => "stuck:tail-escaped"
+    | _, _, _, _, _ => "bad-op"
+  | _ => "bad-op"
+
+end XrayDriver.TypingE
+
 namespace XrayDriver
 
 def typingEngine (f : String) (args : List String) : String :=
-  match f, args with
-  | _, _ => "bad-op"
+  match f with
+  | "check" => TypingE.typingCheck args
+  | "run" => TypingE.typingRun args
+  | _ => "bad-op"
 
 end XrayDriver
